@@ -234,7 +234,7 @@ func randSynLeaf(r *rand.Rand) *synNode {
 		}
 		return &synNode{k: "num", v: fmt.Sprint(r.Intn(100))}
 	case 1:
-		return &synNode{k: "str", v: []string{"x", "a b", "and", "<=", "(q)"}[r.Intn(5)]}
+		return &synNode{k: "str", v: []string{"x", "a b", "and", "<=", "(q)", " x", "x ", " ", "50%", "%d %s", "a,b;c"}[r.Intn(11)]}
 	case 2:
 		return &synNode{k: "key"}
 	case 3:
